@@ -304,7 +304,19 @@ func VxC10FactFile() {
 		lines = append(lines, fmt.Sprintf("p%d %d %d", p, arity, nf))
 	}
 	nl := vxChoose("datalines", 3)
+	symLen := vxParam("SYMLINE", 0)
 	for l := 0; l < nl; l++ {
+		if symLen > 0 && l == 0 {
+			// the first data line is 1..SYMLINE arbitrary bytes (anything a corrupted file may hold
+			// on one line: no line feed)
+			n := 1 + vxChoose("symline_len", symLen)
+			ln := vxString("ln", n)
+			for i := 0; i < n; i++ {
+				vxAssume(ln[i] != '\n')
+			}
+			lines = append(lines, ln)
+			continue
+		}
 		lines = append(lines, []string{"", "7", "/a", "/%"}[vxChoose(fmt.Sprintf("line%d", l), 4)])
 	}
 	data := []byte(strings.Join(lines, "\n"))
